@@ -155,5 +155,8 @@ Definition mutation_keep_rows (strict : bool) (id_map : list Z) (rows : list (bo
    [false] is the seeded change C09-12 (site table checked only). *)
 Definition deduplicate_sites_entry (full_check : bool) (has_duplicates : bool) (num_sites : Z)
            (mutation_site : list Z) : res unit :=
+  (* l.12453: `if (self->sites.num_rows == 0) return 0;` comes BEFORE the integrity check: with no
+     sites nothing is validated and nothing is indexed (site_id_map is never allocated) *)
+  if num_sites =? 0 then Ok tt else
   if full_check && negb (ids_in_range num_sites mutation_site) then Err E_LIBRARY else
   if has_duplicates then read_all (alloc num_sites 0) mutation_site else Ok tt.
